@@ -23,6 +23,19 @@ CLAIMED = {
     note=TRUST + 'Not covered: event-loop survival and isolation of other connections (whole-process/schedule property), the embedded HTTP front end, multipart upload errors. '
          'Collaborators (socket, string pool, env map, atoi/atoll, strlen, memcpy) are stubs with assumed contracts that assert the ranges they are given.',
     design='4 (C01/C02/C12)', technique='cbmc code contracts (dfcc) + loop contracts; ghost handler-exactly-once counter; stubs asserting buffer ranges'),
+ 'C05': dict(
+    text='Slice: hmac_cipher::equal is proved to return true exactly when all bytes are equal while visiting every byte (no data-dependent exit); hmac_cipher::decrypt and aes_cipher::decrypt are proved to '
+         'accept only when the MAC was computed over the whole message part, compared in full with the trailing tag and matched, to decrypt only after that, and to keep every length derived from the cookie inside the buffers; '
+         'base64url decode (unit base64) is exact.',
+    note=TRUST + 'HMAC unforgeability and CBC confidentiality are ASSUMED (crypto objects are stubs that record/range-check arguments). Not covered: session_cookies::load/save, encrypt side, key derivation, '
+         'expiry test in the cookie loader, "reveals neither payload nor equality".',
+    design='4 (C05/C06)', technique='cbmc code contracts (dfcc): loop contract for the constant-time compare, ghost-recorded MAC-then-decrypt protocol skeleton'),
+ 'C12': dict(
+    text='Slice: multipart_parser::consume (all states) is memory safe for every chunk, keeps a well-formed (state, position) pair across chunks, reports a refusing file sink as no_room_left and never writes after it, '
+         'and satisfies the conservation law bytes-in-file + pending partial boundary match == bytes consumed (unbounded, loop contracts); request::on_content_start refuses negative/over-limit Content-Length with 400/413; '
+         'parse_form_urlencoded and util::urldecode are memory safe and exact per token. Exact reconstruction / first boundary occurrence / chunking independence: bounded stand-in (body <= 7 bytes).',
+    note=TRUST + 'Not covered: part-header parsing (process_header, parse_content_disposition: std::string iterator code), temp-file spill, content filters, the 400/413 logic of on_content_progress.',
+    design='4 (C01/C02/C12)', technique='cbmc code contracts (dfcc) + nested loop contracts with a conservation invariant; bounded unwinding for byte-exactness'),
  'C14': dict(
     text='Function contracts written from RFC 3629 and from the property text are enforced by cbmc (dfcc) on the mechanically extracted bodies of '
          'both UTF-8 decoders, utf8::validate, utf8::encode, all 17 single-byte validators and the two filter functions of encoding.cpp, for all inputs '
@@ -45,6 +58,13 @@ CLAIMED = {
     note=TRUST + 'Only the compression functions, initial values and rotate are under contract: the streaming layer (padding, chunking: md5_append/md5_finish, sha1::process_byte/get_digest), HMAC, hex key parsing, '
          'SHA-2 and AES-CBC (OpenSSL/libgcrypt, external) and agreement of bundled vs. library implementations are NOT covered. Overflow checks are off (modular arithmetic by definition).',
     design='4 (C16)', technique='cbmc: cut-point (assert-then-assume) equivalence per step, loop contracts with ghost lock-step state machine'),
+ 'C18': dict(
+    text='read_from_file is proved against EVERY file content (hence every torn state of every save over every earlier state): a load succeeds only if the file holds a complete 16-byte header and '
+         '`size` payload bytes, the stored deadline is not in the past, and the checksum verified is that of exactly those payload bytes; on failure the caller\'s data and timeout are untouched. '
+         'read_all delivers exactly the next n bytes or fails; read_timestamp (used by gc) never reports a live session as dead.',
+    note=TRUST + 'POSIX read/lseek/time are stubs with regular-file semantics; zlib CRC-32 is an arbitrary fixed value of the payload: "a CRC-consistent record is one some save wrote" is the CRC collision assumption. '
+         'Size fields >= 2^31 are outside the contract (observation recorded). Not covered: writer ordering, fsync/sector model, locking, unlink, directory walk of gc.',
+    design='4 (C18)', technique='cbmc code contracts (dfcc) with a ghost file of arbitrary content; loop contract for read_all'),
  'C19': dict(
     text='The chunk reader/writer of cppcms::archive (next_chunk_size, read_chunk, read_chunk_as_string, write_chunk, eof) and the POD-vector load body are under contract: '
          'for every archive content, length and cursor a read either throws or stays inside the archive bytes and returns exactly the payload; '
